@@ -930,19 +930,24 @@ def stress_contract(vk, cfg):
     if vk.sym:
         warned = any("Cauchy stress tensor can't be evaluated on a 2d-Field" in m for m in w)
         vk.ensures_true("2d-fallback warning iff 2d-field", warned == (Fd == 2), f"warnings: {w}", backend="exec")
-    # 3. another container: its state
+    # 3. another container: its state; the first container is not touched
+    a0 = vk.snapshot(field_a[0].values)
     s, w = call("cauchy_stress", field_b)
     vk.ensures_eq("3/cauchy_stress(other field) == P F^T / det F of that field", s, spec(Fs[2], Js[2], True))
     t, w = call("kirchhoff_stress", field_b)
     vk.ensures_eq("3/kirchhoff_stress(other field) == P F^T of that field", t, spec(Fs[2], Js[2], False))
-    # 4. back to the first container
+    vk.frame_unchanged("values of the first container after evaluating another container", field_a[0].values, a0)
+    vk.frame_unchanged("values of the other container", field_b[0].values, us[2])
+    # 4. back to the first container: P and F of the values it holds at the time of the call
+    ua = vk.snapshot(field_a[0].values)
+    Fa = _F_spec(vk, kind, region, mesh, cells, ua)
     t, w = call("kirchhoff_stress", field_a)
-    vk.ensures_eq("4/kirchhoff_stress(first field again) == P F^T of its values", t, spec(Fs[1], Js[1], False))
+    vk.ensures_eq("4/kirchhoff_stress(first field again) == P F^T of its values", t, spec(Fa, None, False))
     # the first Piola-Kirchhoff stress the view uses (stress_type=None)
     Pv = solid.evaluate.stress(field_b)
     vk.ensures_eq("evaluate.stress(field) == P of that field", Pv, spec(Fs[2], Js[2], False) if False else _P_total(vk, umat, solid, Fs[2], ni, Fd))
     if vk.sym:
-        vk.canary("kirchhoff==cauchy", t, spec(Fs[1], Js[1], True) if Fd == 3 else 2 * t)
+        vk.canary("kirchhoff==cauchy", t, spec(Fa, det_ref(Fa), True) if Fd == 3 else 2 * t)
         vk.canary("stale-state", t, spec(Fs[0], Js[0], False))
 
 
